@@ -13,6 +13,9 @@ Decided:
          the prefix derives from request.url_root.  (werkzeug's redirect() only applies
          iri_to_uri(safe_conversion=True), which leaves ?, # and % alone -- read from the pinned source --
          so it is not a sanitiser for this rule.)
+  R07.e  the methods a route admits do not depend on earlier requests: the only writers of a ``.methods`` set are the
+         constructors of Route / BoundRoute; the method that receives ``route.methods`` from dispatch (to build the 405's
+         Allow) neither changes that object nor keeps it in a field it updates in place;
   R07.c  inheritance plumbing: BoundRoute.slash_mode = app.slash_mode if inherit_slashes else
          route.slash_mode and is the mode the pattern is compiled with; NullRoute binds with
          inherit_slashes=False and is constructed with S_REWRITE; every keyword a caller can put into the
@@ -122,6 +125,26 @@ def run(rep):
         rst = stmt_of(app, rc)
         cs = dv.conds(rst)
         npc = [c for c in walk_body(f.node) if isinstance(c, ast.Call) and call_name(c) == 'normalize_path']
+        more_canon = []          # further locals holding normalize_path(request path, ..), computed again
+        if len(npc) > 1:
+            # the canonical form is a function of the (decoded) request path -- the text the pattern was matched against and
+            # the canonicity decision is taken on.  Canonicalising any other text (the raw request target, a quoted or
+            # re-cased path) gives a "canonical path" that need not be the canonical form of the request path.
+            on_req = [c for c in npc if argn(c, 'path', 0) is not None and dv.is_request_attr(argn(c, 'path', 0), 'path')]
+            for c in npc:
+                if c not in on_req:
+                    rep.fail('R07.a', fkey(f, 'canonical form of ' + norm(argn(c, 'path', 0) or c)[:40]),
+                             'dispatch canonicalises %s, which is not the decoded request path the canonicity test is taken on: what it '
+                             'yields need not be the canonical form of the requested path (the Location can name a path that is itself '
+                             'redirected again)' % short(argn(c, 'path', 0) or c), app, c)
+            if not on_req or len(set(norm(c) for c in on_req)) != 1:
+                raise AnalysisError('dispatch: expected exactly one normalize_path(request path, ..) call, found %d' % len(on_req))
+            for c in on_req[1:]:
+                st_ = stmt_of(app, c)
+                if not (isinstance(st_, ast.Assign) and st_.value is c and len(st_.targets) == 1 and isinstance(st_.targets[0], ast.Name)):
+                    raise AnalysisError('dispatch: a repeated normalize_path(...) is not bound to a local')
+                more_canon.append(st_.targets[0].id)
+            npc = on_req[:1]
         if len(npc) != 1:
             raise AnalysisError('dispatch: expected exactly one normalize_path(...) call, found %d' % len(npc))
         npc = npc[0]
@@ -381,6 +404,8 @@ def run(rep):
         # (the local bound to normalize_path(..) itself holds decoded text; when the call is wrapped at its binding, the local holds
         # whatever the wrapper returns: it is expanded like any other named temporary and judged as an expression)
         taint_roots, tainted_names = ({npv}, {npv}) if not np_wrappers else (set(), set())
+        taint_roots |= set(more_canon)
+        tainted_names |= set(more_canon)
         from ..astutil import assigned_value
         all_locals = set(n.id for n in walk_body(f.node) if isinstance(n, ast.Name) and isinstance(n.ctx, ast.Store))
         for name in all_locals:
@@ -488,8 +513,14 @@ def run(rep):
     def canonical_form_rules():
         check_normalize_path(rep, 'R07.d')
     rep.rule('R07.d', 'shape of normalize_path: drop empty segments, one leading slash, one trailing slash iff branch')
+
+    def method_set_rules():
+        # "the redirect is issued only for methods the route admits": the admitted methods are the declared ones for every request
+        from .dispatch import check_method_sets_stable
+        check_method_sets_stable(rep, 'R07.e')
+    rep.rule('R07.e', 'a route\'s method set is fixed after set-up: who-may-mutate .methods; what dispatch hands to the dispatch state is only read / copied')
     # each group is analysed on its own: a construct one group cannot follow does not hide the verdicts of the others
-    for group in (redirect_rules, plumbing_rules, canonical_form_rules):
+    for group in (redirect_rules, plumbing_rules, canonical_form_rules, method_set_rules):
         run_group(rep, group)
 
 
@@ -534,8 +565,15 @@ class _NP(object):
         if self._segments(e):
             self.seg_defs += 1
             return [(facts, ['segs', 0, 0])]
-        if isinstance(e, ast.List) and len(e.elts) == 1 and isinstance(e.elts[0], ast.Constant) and e.elts[0].value == '':
-            return [(facts, ('empties', 1))]
+        if isinstance(e, (ast.List, ast.Tuple)) and all(isinstance(x, ast.Constant) and x.value == '' for x in e.elts) and \
+                (e.elts or isinstance(e, ast.Tuple)):
+            return [(facts, ('empties', len(e.elts)))]      # [''] / ('',) / (): a display of empty segments
+        if isinstance(e, ast.Call) and self._is_chain(e.func) and e.args and not e.keywords and not any(isinstance(a_, ast.Starred) for a_ in e.args):
+            # itertools.chain(a, b, ..): the items of a, then of b, ... -- a new sequence, like a + b + ..
+            alts = self.ev(e.args[0], st, facts)
+            for nxt in e.args[1:]:
+                alts = [(f2, self.add(self._fresh(a_), b_)) for f1, a_ in alts for f2, b_ in self.ev(nxt, st, f1)]
+            return [(f1, self._fresh(v)) for f1, v in alts]
         if isinstance(e, ast.IfExp):
             out = []
             for f2, pol in self.test(e.test, st, facts):
@@ -552,8 +590,21 @@ class _NP(object):
             return [(f1, ('str', v[1], v[2]) if isinstance(v, list) else ('other',)) for f1, v in self.ev(e.args[0], st, facts)]
         return [(facts, ('other',))]
 
+    def _is_chain(self, f):
+        """``f`` names itertools.chain in the function's module"""
+        if isinstance(f, ast.Name):
+            return self.fi.mod.repo.resolve(self.fi.mod, f.id)[2] == 'itertools.chain'
+        return isinstance(f, ast.Attribute) and f.attr == 'chain' and isinstance(f.value, ast.Name) and \
+            self.fi.mod.repo.resolve(self.fi.mod, f.value.id)[::2] == ('module', 'itertools')
+
+    @staticmethod
+    def _fresh(v):
+        return list(v) if isinstance(v, list) else v
+
     @staticmethod
     def add(a_, b_):
+        if a_[0] == 'empties' and b_[0] == 'empties':
+            return ('empties', a_[1] + b_[1])
         if a_[0] == 'empties' and isinstance(b_, list):
             return ['segs', b_[1] + a_[1], b_[2]]          # a new list
         if isinstance(a_, list) and b_[0] == 'empties':
@@ -722,7 +773,27 @@ def check_slash_plumbing(rep, rule):
             alts.append((s.value, conds(bi, s)))
     from ..cfg import expand_conds
     alts = [(v, expand_conds(cs)) for v, cs in alts]
-    inh = lambda t: norm(t) == 'inherit_slashes'
+    # the flag, by role: the local(s) bound to ``<bind keywords>.pop('inherit_slashes', ..)``, or the pop itself
+    kwname_ = bi.node.args.kwarg.arg if bi.node.args.kwarg is not None else 'kwargs'
+    is_pop = lambda e: isinstance(e, ast.Call) and norm(e.func) == '%s.pop' % kwname_ and e.args and isinstance(e.args[0], ast.Constant) and \
+        e.args[0].value == 'inherit_slashes'
+    flag_names = set()
+    for s_ in stmts_of(bi.node):
+        if isinstance(s_, ast.Assign) and len(s_.targets) == 1 and isinstance(s_.targets[0], ast.Name) and is_pop(s_.value):
+            ds_, clean_ = defs_.of(s_.targets[0].id)
+            if clean_ and len(ds_) == 1:
+                flag_names.add(s_.targets[0].id)
+    grew_ = True
+    while grew_:          # plain copies of the flag (``inherit = opts_inherit_slashes``)
+        grew_ = False
+        for s_ in stmts_of(bi.node):
+            if isinstance(s_, ast.Assign) and len(s_.targets) == 1 and isinstance(s_.targets[0], ast.Name) and isinstance(s_.value, ast.Name) and \
+                    s_.value.id in flag_names and s_.targets[0].id not in flag_names:
+                ds_, clean_ = defs_.of(s_.targets[0].id)
+                if clean_ and len(ds_) == 1:
+                    flag_names.add(s_.targets[0].id)
+                    grew_ = True
+    inh = lambda t: (isinstance(t, ast.Name) and t.id in flag_names) or is_pop(t)
     want = {True: '%s.slash_mode' % bi.params()[2], False: '%s.slash_mode' % bi.params()[1]}
     ok = len(alts) == 2 and all(any(norm(v) == want[pol] and has_cond(cs, inh, pol) for v, cs in alts) for pol in (True, False))
     rep.check(rule, fkey(bi, 'self.slash_mode'), ok, 'slash_mode = app.slash_mode if inherit_slashes else route.slash_mode' if ok else
